@@ -79,6 +79,9 @@ func (r *Rollback) Run(name string) error {
 
 	slog.Debug("performing rollback", "name", name)
 	if _, err := r.performRollback(currentRelease, targetRelease); err != nil {
+		if !r.DryRun {
+			r.failRollback(targetRelease, err)
+		}
 		return err
 	}
 
@@ -89,6 +92,16 @@ func (r *Rollback) Run(name string) error {
 		}
 	}
 	return nil
+}
+
+// failRollback records the rolled back release as failed, so that it is never
+// left in the pending-rollback state when the rollback returns an error.
+func (r *Rollback) failRollback(rel *release.Release, err error) {
+	if rel.Info.Status != release.StatusFailed {
+		rel.Info.Description = fmt.Sprintf("Rollback %q failed: %s", rel.Name, err)
+	}
+	rel.Info.Status = release.StatusFailed
+	r.cfg.recordRelease(rel)
 }
 
 // prepareRollback finds the previous release and prepares a new release object with
